@@ -20,8 +20,9 @@ PROP = {
     "runs": [{
         "component": "wsconc",
         "quick": {"gen": [(1500, 16)], "enum": [(3,)]},
-        "thorough": {"gen": [(30000, 22)], "enum": [(4,)]},
+        "thorough": {"gen": [(20000, 22)], "enum": [(4,)]},
     }],
+    "direct": [{"component": "wsconc", "timeout": 900}],
     "rule": "scripts = one client websocket.Stream attached (hook VerifAttach) to a real sonic.AsyncAdapter over a real loopback TCP "
             "connection whose other end is a std-library connection driven by the harness (independent RFC 6455 encoder for what the peer "
             "sends, independent parser for everything the client writes); application calls AsyncNextFrame / AsyncNextMessage / AsyncWrite "
@@ -38,7 +39,11 @@ PROP = {
             "frame, poll, flush, message read whose callback writes}. Non-trivial = the model reached a non-default branch (flush queued "
             "behind a flush in flight, waiters released, flush going on with a frame queued meanwhile, partial write, read and write in flight "
             "together, reply queued by the read path while a write is in flight, read completed from a buffered frame, message read re-issued, "
-            "call left out by the usage precondition, ...)",
+            "call left out by the usage precondition, ...); direct mode (real goroutine and kernel timing, nothing placed): the raw peer sends "
+            "1-30 Pings at random moments from its own goroutine and parses what it receives in another, while the loop goroutine keeps a "
+            "self-re-arming AsyncNextFrame outstanding and issues 1-30 AsyncWrite calls (4 bytes to 20 KB, also while earlier ones are in "
+            "flight) between polls, 40 (600) rounds; checked: every write callback exactly once with nil, reads deliver the peer's frames in "
+            "order, the peer parses exactly the data frames in call order and one Pong per Ping in order, nothing left over",
     "trusted_base": LEAN_TB + [
         "Model/WsAsync.lean: hand-written labelled transition system of stream.go (AsyncNextFrame/asyncNextFrame, AsyncNextMessage/"
         "asyncNextMessage, AsyncWrite, AsyncWriteFrame, prepareWrite, AsyncClose, AsyncFlush/asyncFlush with asyncFlushing and "
